@@ -235,6 +235,9 @@ def main() -> int:
                 raise E.MachineryError("vacuous: action %s never explored (%s)" % (op, actions))
         # objects of the corpus decks: every single assignment of the pairs alphabet, then SaveReopen
         decks = corpus.decks() if thorough else corpus.subset(16, seed)
+        # + the generated decks (every shape kind, content of other producers, charts of types the library cannot generate)
+        from mbt.drive import readonly as RO
+        decks = decks + RO.gen_decks(os.path.join(work, "gen"))
         found = [o for lst in E.pmap(D.corpus_objects, decks, procs=16, chunk=1) for o in lst if o[0] in knames]
         chosen = pick_corpus(found, 10 if thorough else 2, seed)
         n0 = len(jobs)
